@@ -351,8 +351,7 @@ def gen_window_scenario(rng):
     """the exiting-worker window: a worker is stopped from outside and parks in its post_stop (status Stopping,
     ports closed, supervisor not yet told); jobs are routed to it meanwhile (they wait in its queue), the pool is
     resized, the post_stop returns, the replacement takes over. No `hold` here (see docs/notes/C13.md)."""
-    # not sticky: once F11 has put one key on two workers, `find(is_processing_key)` depends on HashMap order
-    router = rng.choice(["kp", "kp", "rr", "cu", "q"])
+    router = rng.choice(["kp", "kp", "rr", "cu", "sq", "sq", "q"])
     n = rng.choice([1, 1, 2, 3])
     keys = rng.sample(range(0, 30), rng.choice([1, 2, 3]))
     h = {k: rng.choice([0, 1, 2, 3, 5, 2**32 + 3]) for k in keys} if router == "cu" else {}
